@@ -216,6 +216,8 @@ def buffer_validators(rep, prog, rule, ptr64=True):
                 akey = "%s|align" % name
                 if any(v is True for c, v in al):
                     rep.ok(rule, akey, f.loc, "is_aligned(buffer) holds on the Ok path")
+                elif any("align" in fmt(unexact(c)) for c, v in facts):
+                    rep.unk(rule, akey, f.loc, "alignment is tested in an unrecognised form")
                 else:
                     rep.bad(rule, akey, f.loc, "%s returns Ok without the alignment check of "
                             "the byte buffer" % name)
@@ -326,10 +328,26 @@ def crop_f64(rep, prog, rule):
             for fld in ("left", "top", "width", "height"):
                 if _mentions_field(a, fld) or _mentions_field(b, fld):
                     nan_checked.add(fld)
+        # predicates of other shapes (is_nan, is_finite, contains, ...) that mention a field
+        other = {}
+        for c, v in facts:
+            if not (c[0] == "bin" and c[1] in FLIP):
+                for fld in ("left", "top", "width", "height"):
+                    if _mentions_field(c, fld):
+                        other.setdefault(fld, []).append((c, v))
+        for c, v in facts:
+            nm = c[1] if c[0] == "call" else (c[2] if c[0] == "callat" else None)
+            if (nm == "is_nan" and v is False) or (nm == "is_finite" and v is True):
+                for fld in ("left", "top", "width", "height"):
+                    if _mentions_field(c, fld):
+                        nan_checked.add(fld)
         for fld in ("left", "top", "width", "height"):
             key = "nan|%s" % fld
             if fld in nan_checked:
                 rep.ok(rule, key, f.loc, "crop_box.%s is an operand of a comparison that held" % fld)
+            elif fld in other:
+                rep.unk(rule, key, f.loc, "crop_box.%s is tested by %s (unrecognised form)" % (
+                    fld, fmt(other[fld][0][0])[:80]))
             else:
                 rep.bad(rule, key, f.loc, "crop() can return Ok with crop_box.%s = NaN: no "
                         "comparison involving it is required to be TRUE on the Ok path (every "
@@ -345,6 +363,9 @@ def crop_f64(rep, prog, rule):
                             okk = True
             if okk:
                 rep.ok(rule, key, f.loc, "crop_box.%s >= 0" % fld)
+            elif fld in other:
+                rep.unk(rule, key, f.loc, "crop_box.%s is tested by %s (unrecognised form)" % (
+                    fld, fmt(other[fld][0][0])[:80]))
             else:
                 rep.bad(rule, key, f.loc, "crop() can return Ok with a negative crop_box.%s: no "
                         "lower bound is established" % fld)
@@ -371,6 +392,9 @@ def crop_f64(rep, prog, rule):
             elif cross:
                 rep.bad(rule, key, f.loc, "crop_box.%s + crop_box.%s is compared with the image's "
                         "%s (wrong axis)" % (pos, size, cross))
+            elif pos in other or size in other:
+                rep.unk(rule, key, f.loc, "upper bound of %s/%s tested in an unrecognised form"
+                        % (pos, size))
             else:
                 rep.bad(rule, key, f.loc, "crop() can return Ok without crop_box.%s + crop_box.%s "
                         "<= image %s" % (pos, size, getter))
